@@ -41,6 +41,18 @@ func c12ProbeAll(c *ucfg.Config, model *Node, sep bool, opts []ucfg.Option, tag 
 			}
 			addr := parseAddr(name, idx, sep)
 			n, st := modelGet(model, addr)
+			if idx < 0 {
+				// CountField at the same (possibly dotted) name: the number of list elements, 1 for a primitive
+				cnt, cerr := c.CountField(name, opts...)
+				switch {
+				case st == stMissing || st == stError:
+					verif.Assert(cerr != nil, "C12/CountField fails on a missing address/"+tag)
+				case n.Kind == kCfg && len(n.List) > 0:
+					verif.Assert(cerr == nil && cnt == len(n.List), "C12/CountField is the length of the list at the address/"+tag)
+				case n.Kind == kUint:
+					verif.Assert(cerr == nil && cnt == 1, "C12/CountField of a primitive is 1/"+tag)
+				}
+			}
 			has, herr := c.Has(name, idx, opts...)
 			u, uerr := c.Uint(name, idx, opts...)
 			switch {
